@@ -14,6 +14,9 @@ import RaftVerif.Model.Log
 
 namespace Raft
 
+/-- decreasing order used by `sort.Sort(decrUint64Slice)` -/
+def geB (a b : Nat) : Bool := decide (a ≥ b)
+
 inductive Role where
   | follower | candidate | leader
   deriving DecidableEq, Repr, Inhabited
